@@ -19,7 +19,7 @@ from typing import Dict, List
 
 import deep.logging
 from deep.api.plugin import load_plugins
-from deep.api.resource import Resource
+from deep.api.resource import Resource, SERVICE_NAME
 from deep.api.tracepoint.tracepoint_config import MetricDefinition
 from deep.config import ConfigService
 from deep.config.tracepoint_config import TracepointConfigService
@@ -66,6 +66,7 @@ class Deep:
             return
         self.config.plugins = load_plugins(self.config, self.config.PLUGINS)
         default_resource = Resource.create()
+        service_name = default_resource.attributes.get(SERVICE_NAME, None)
         for provider in self.config.resource_providers:
             try:
                 plugin_resource = provider.resource()
@@ -73,6 +74,11 @@ class Deep:
                     default_resource = default_resource.merge(plugin_resource)
             except BaseException:
                 deep.logging.exception("Failed to process plugin resource %s", provider.name)
+
+        if not default_resource.attributes.get(SERVICE_NAME, None):
+            # a plugin's resource can carry an empty service name (read from a variable that is not set): that is no
+            # name, as it is none for Resource.create - the one we had stays
+            default_resource = default_resource.merge(Resource({SERVICE_NAME: service_name}))
 
         self.config.resource = default_resource
         self.trigger_handler.start()
